@@ -497,7 +497,7 @@ triage.add('C16', 'C16-R1', key('struct.error', 'raised in nfc.tag.tt4.Type4Tag.
 
 
 from .c12 import ISODEP_EMPTY_REASON, ISODEP_EMPTY_ANCHORS   # noqa: E402
-triage.add('C16', 'C16-R1', key('IndexError', 'raised in nfc.tag.tt4.IsoDepInitiator.exchange', 'data[0] in `while bool(data[0] & 16)`'), ISODEP_EMPTY_REASON, ISODEP_EMPTY_ANCHORS)
+triage.add('C16', 'C16-R1', key('IndexError', 'raised in nfc.tag.tt4.IsoDepInitiator.exchange', 'data[0] in `while data[0] & 16`'), ISODEP_EMPTY_REASON, ISODEP_EMPTY_ANCHORS)
 
 def _segment_guard(f):
     """Type1TagMemoryReader._read_from_tag raises a tag command error before asking for a segment beyond 15."""
